@@ -930,6 +930,7 @@ func main() {
 	writeTrees(t, *out)
 	writeGuard(t, *out)
 	writeScanner(t, *out)
+	writeChunk(t, *out)
 	if err := os.MkdirAll(*out, 0o755); err != nil {
 		fmt.Fprintln(os.Stderr, err)
 		os.Exit(2)
